@@ -14,6 +14,8 @@ COMMITTEES = {
     "U6": ("{1,2,3,4,5,6}", "W111111", "1,1,1,1,1,1"),
     "S2": ("{1,2}", "W12", "10,20"),
     "W5b": ("{1,2,3,4,5,6}", "W222221", "2,2,2,2,2,1"),
+    # same weights as W4, two members not leader-eligible: quorums are over the total weight, eligibility must not matter
+    "W4n": ("{1,2,3,4}", "W3111", "3,1n,1,1n"),
 }
 
 
@@ -34,8 +36,8 @@ def _gen(comm, mode):
 
 def _plan(tier):
     if tier == "quick":
-        return [("W4", "cqc"), ("W4", "tqc"), ("W4", "tqc3"), ("U4", "tqc3"), ("W4", "add2"), ("W4", "tadd2"), ("U4", "tadd2"), ("U6", "cqc"), ("S2", "cqc"), ("S2", "tqc"), ("U4", "add3")]
-    return [(c, m) for c in ["W4", "U4", "U6", "S2", "W5b"] for m in ["cqc", "tqc", "add3"] if not (c in ("U6", "W5b") and m == "add3")] + [("U6", "add2"), ("W4", "tqc3"), ("U4", "tqc3"), ("S2", "tqc3"), ("W4", "tadd3"), ("U4", "tadd3"), ("U6", "tadd2")]
+        return [("W4", "cqc"), ("W4", "tqc"), ("W4", "tqc3"), ("U4", "tqc3"), ("W4", "add2"), ("W4", "tadd2"), ("U4", "tadd2"), ("W4n", "cqc"), ("W4n", "tqc"), ("U6", "cqc"), ("S2", "cqc"), ("S2", "tqc"), ("U4", "add3")]
+    return [(c, m) for c in ["W4", "U4", "U6", "S2", "W5b", "W4n"] for m in ["cqc", "tqc", "add3"] if not (c in ("U6", "W5b") and m == "add3")] + [("U6", "add2"), ("W4", "tqc3"), ("U4", "tqc3"), ("S2", "tqc3"), ("W4", "tadd3"), ("U4", "tadd3"), ("U6", "tadd2")]
 
 
 def run(tier, seed):
